@@ -38,7 +38,7 @@ def _round(v, nd=3):
 # ----------------------------------------------------------------------------------------------- generation
 
 
-def gen_new(rng, ftype, cost=None, nmax=8, minimizer=None):
+def gen_new(rng, ftype, cost=None, nmax=8, minimizer=None, numerical_ok=False):
     """Draw a construction spec (data + model + cost) for a fit of type ftype."""
     cost = cost or rng.choice(COSTS[ftype])
     spec = {"type": ftype, "cost": cost, "minimizer": minimizer or rng.choice(["iminuit", "iminuit", "scipy"]), "dea": rng.choice(["nonlinear", "nonlinear", "iterative"])}
@@ -92,8 +92,8 @@ def gen_new(rng, ftype, cost=None, nmax=8, minimizer=None):
         ents = [_round(edges[0] - 0.1 * span + (1.2 * span) * rng.random(), 4) for _ in range(nent)]
         spec.update({"model": mk, "edges": edges, "entries": ents, "ptrue": list(dflt), "bin_eval": rng.choice(["antiderivative", "antiderivative", "numerical", "simpson", "trapezoid", "rectangle"]),
                      "as_numpy": rng.random() < 0.25})
-        if spec["bin_eval"] == "numerical":
-            spec["minimizer"] = "iminuit"  # scipy + numerical quadrature makes excursions (profiles, asymmetric errors) take minutes
+        if spec["bin_eval"] == "numerical" and not numerical_ok:
+            spec["bin_eval"] = "simpson"  # numerical quadrature makes every cost evaluation ~ms x bins: fits take minutes; only fit-free machines use it
     else:
         mk = rng.choice(["normal", "expon"])
         pdf, cdf, names, dflt = userlib.DENSITIES[mk]
